@@ -145,6 +145,20 @@ def classify(name, s, impl, nxt=b""):
     return None, det
 
 
+def defect_tag(name, s):
+    """tag of the listed deviation under which the (white-space stripped) value s is accepted although it is
+    outside the RFC language, or None"""
+    kind = type_of(name)[0]
+    t = strip_ws(s)
+    if kind == "dec" and t in (b"+", b"-"):
+        return "dec64-sign-only"
+    if kind == "dec" and re.fullmatch(rb"[+-]\.[0-9]+", t):
+        return "dec64-no-int-digits"
+    if kind == "int" and b"\0" in s and not s.startswith(b"\0"):
+        return "nul-truncation"
+    return None
+
+
 # ------------------------------------------------------------------------------------------------
 # input material
 # ------------------------------------------------------------------------------------------------
@@ -240,7 +254,8 @@ class TComp(Comp):
         if f[0] in ("cmp", "sort"):
             a, b = unhex(f[2]), unhex(f[3])
             # judge on the white-space-stripped values so that only the comparison itself is judged
-            va, vb = rfc_value(f[1], strip_ws(a)), rfc_value(f[1], strip_ws(b))
+            st = (lambda x: x) if type_of(f[1])[0] == "bool" else strip_ws      # no white space around booleans
+            va, vb = rfc_value(f[1], st(a)), rfc_value(f[1], st(b))
             if va is None or vb is None:
                 want = "E"
             elif f[0] == "cmp":
@@ -249,7 +264,12 @@ class TComp(Comp):
                 lo, hi = (vb, va) if vb < va else (va, vb)
                 want = hexs(rfc_canon(f[1], lo)) + " " + hexs(rfc_canon(f[1], hi))
             if o != want:
-                return None, "%s of %r and %r on %s: implementation %s, RFC 7950 %s" % (f[0], a, b, f[1], o, want)
+                tag = None
+                if want == "E" and o != "E":
+                    # an operand outside the RFC language was stored: attribute it to the listed deviation, if any
+                    tags = [defect_tag(f[1], x) for x, v in ((a, va), (b, vb)) if v is None]
+                    tag = tags[0] if tags and all(tags) else None
+                return tag, "%s of %r and %r on %s: implementation %s, RFC 7950 %s" % (f[0], a, b, f[1], o, want)
             return None
         if f[0] == "range":
             v = int(f[2])
@@ -526,6 +546,35 @@ class RangeCheck(TComp):
                     if lo <= v <= hi:
                         add(kind, v, parts)
         return L
+
+
+class Dec64ExactBuf:
+    """oracle (ASan build): lyd_value_validate() on a value held in a heap block of exactly value_len bytes must not
+    read outside the block. On the unchanged tree lyplg_type_parse_dec64 reads value[len + 1] for a value that ends
+    in a period (tag dec64-overread)."""
+    name = "decvx"
+    driver = "t_types"
+    kinds = ["asan"]
+    quick_sanitize = True
+
+    def gen(self, rng, tier, scale=1.0):
+        vals = [b"1.", b"-1.", b"0.", b"-.", b"+.", b" 1.", b"12.", b"1.5", b"1", b"-", b"1.0", b"1. ", b".", b"1..", b"x", b"", b" ",
+                b"+", b"1.50", b"-0.5 ", b"9223372036854775807.", b"123456789012345678901234567890."]
+        L = ["decvx\t%s\t%s" % (leaf, hexs(v)) for leaf in ("d1", "d18", "d2r") for v in vals]
+        L += ["decvx\t%s\t%s" % (leaf, hexs(v)) for leaf in ("i8", "u64", "b") for v in (b"1", b"1 ", b"-", b"true", b"12", b"+", b" ")]
+        n = 200 if tier != "thorough" else 20000
+        for _ in range(int(n * scale)):
+            s = bytes(rng.choice(b"+-0159 .") for _ in range(rng.randrange(0, 6)))
+            L.append("decvx\t%s\t%s" % (rng.choice(DEC_LEAVES + ["i8", "u8", "i64"]), hexs(s)))
+        return L
+
+    def judge(self, line, out):
+        f = line.split("\t")
+        if out.startswith("CRASH") or out == "TIMEOUT":
+            s = unhex(f[2])
+            tag = "dec64-overread" if f[1].startswith("d") and strip_ws(s).endswith(b".") else None
+            return tag, "lyd_value_validate(%s, %r, len %d) on an exactly sized heap block: %s" % (f[1], s, len(s), out)
+        return None
 
 
 ALL = [IntStore, Dec64Store, Dec64Next, BoolStore, ValCmp, ValSort, RangeCheck]
